@@ -225,12 +225,20 @@ func ulimitFor(flags string) string {
 // replayRace: a Go snippet from the contract is run in-package under the race detector. par(fs...)
 // runs every function 20000 times, all concurrently.
 func (c *Checker) replayRace(o *Obl, e *enc, body string, rp map[string]interface{}) map[string]interface{} {
+	// packages the snippet names
+	extra := ""
+	for _, im := range [][2]string{{"json.", "encoding/json"}, {"fmt.", "fmt"}, {"time.", "time"}, {"parser.", repoModule + "/parser"},
+		{"scope.", repoModule + "/scope"}, {"util.", repoModule + "/util"}, {"engine.", repoModule + "/engine"}} {
+		if regexp.MustCompile(`(^|[^A-Za-z0-9_.])`+regexp.QuoteMeta(im[0])).MatchString(body) && !strings.HasSuffix(im[1], "/"+e.f.Pkg.Pkg.Name()) {
+			extra += "\t\"" + im[1] + "\"\n"
+		}
+	}
 	src := fmt.Sprintf(`package %s
 
 import (
 	"sync"
 	"testing"
-)
+`+extra+`)
 
 func par(fs ...func()) {
 	var wg sync.WaitGroup
